@@ -166,7 +166,7 @@ func NewKeyUsage(critical bool, flags KeyUsage) pkix.Extension {
 	bitStringRaw, _ := asn1.Marshal(bs)
 
 	out := pkix.Extension{
-		Critical: true,
+		Critical: critical,
 		Id:       oidExtensionKeyUsage,
 		Value:    bitStringRaw,
 	}
